@@ -11,6 +11,8 @@
 // See c15_common.h for the line protocol.
 #include "givinteger.h"
 #include "givintprime.h"
+#include "givintnumtheo.h"
+#include "givintsqrootmod.h"
 #include "modular.h"
 #include "modular-log16.h"
 #include "gf2.h"
@@ -80,6 +82,49 @@ struct ZROp {
         return true;
     }
 };
+// ---------------------------------------------------------------- number theory: IntNumTheoDom, IntSqrtModDom (Integer outputs)
+struct NTOp {
+    std::string op; const Args& x;
+    NTOp(const std::string& o, const Args& e) : op(o), x(e) {}
+    bool operator()(std::vector<Integer*>& o, std::string& ret) {
+        static IntNumTheoDom<> N; static IntSqrtModDom<> S;
+        uint64_t k = x.empty() ? 0 : ui(x[0]);
+#define P(k) (*o[k])
+        if (op == "phi") N.phi(P(0), P(1));
+        else if (op == "lambda") N.lambda(P(0), P(1));
+        else if (op == "lambda_inv") N.lambda_inv(P(0), P(1));
+        else if (op == "lambda_primpow") N.lambda_primpow(P(0), P(1), k);
+        else if (op == "lambda_inv_primpow") N.lambda_inv_primpow(P(0), P(1), k);
+        else if (op == "order") N.order(P(0), P(1), P(2));                       // (r, g, p)
+        else if (op == "lowest_prim_root") N.lowest_prim_root(P(0), P(1));
+        else if (op == "prim_root") N.prim_root(P(0), P(1));
+        else if (op == "prim_root.w") { uint64_t runs = 0; N.prim_root(P(0), runs, P(1)); }
+        else if (op == "prim_root_of_prime") N.prim_root_of_prime(P(0), P(1));
+        else if (op == "probable_prim_root") { double e = 0; N.probable_prim_root(P(0), e, P(1), (uint64_t) 1000); }
+        else if (op == "prim_inv") N.prim_inv(P(0), P(1));
+        else if (op == "prim_elem") N.prim_elem(P(0), P(1));
+        else if (op == "sqrootmod") S.sqrootmod(P(0), P(1), P(2));               // (x, a, n)
+        else if (op == "sqrootmodprime") S.sqrootmodprime(P(0), P(1), P(2));
+        else if (op == "sqrootmodprimepower") S.sqrootmodprimepower(P(0), P(1), P(2), k, P(3));   // (x, a, p, pk) + k
+        else if (op == "sqrootmodpoweroftwo") S.sqrootmodpoweroftwo(P(0), P(1), k, P(2));         // (x, a, pk) + k
+        else if (op == "Brillhart") S.Brillhart(P(0), P(1), P(2));               // (a, b, p)
+        else if (op == "sumofsquaresmodprime") S.sumofsquaresmodprime(P(0), P(1), P(2), P(3));    // (a, b, k, p)
+        else if (op == "sumofsquaresmodprimeDeterministic") S.sumofsquaresmodprimeDeterministic(P(0), P(1), P(2), P(3));
+        else if (op == "sumofsquaresmodprimeMonteCarlo") S.sumofsquaresmodprimeMonteCarlo(P(0), P(1), P(2), P(3));
+        else if (op == "sumofsquaresmodprimeNoERH") S.sumofsquaresmodprimeNoERH(P(0), P(1), P(2), P(3));
+        else if (op == "sumofsquaresmodprimewithnonresidue") S.sumofsquaresmodprimewithnonresidue(P(0), P(1), P(2), P(3), P(4));
+        else return false;
+#undef P
+        (void) ret;
+        return true;
+    }
+};
+static std::string goNT(const Case& c) {
+    if (c.op == "__prepare__") return "";
+    NTOp op(c.op, c.extra);
+    try { return run_two<Integer, IOZ>(c, op); } catch (...) { return "EXCEPTION"; }
+}
+
 static std::string goZR(const Case& c) {
     if (c.op == "__prepare__") return "";
     ZROp op(c.op, c.extra);
@@ -164,6 +209,7 @@ static std::string goL16(const Case& c) {
 int main() {
     dom_table()["ZR"] = &goZR;
     dom_table()["CRT"] = &goCRT;
+    dom_table()["NT"] = &goNT;
     dom_table()["gf2"] = &goGF2;
     dom_table()["log16"] = &goL16;
     g_fork = true;
